@@ -88,7 +88,7 @@ example : C03.bytesOf? (create [([97, 46, 119], sparseWav (4294967296 - 76))]) =
 
 /-! ## bridging lemmas -/
 
-theorem C20_gen_clm_offset_limit : Gen.Constants.clm_offsetLimit = Clm.offsetLimit := by decide
-theorem C20_gen_clm_name_max : Gen.Constants.clm_nameMax = Clm.nameMax := by decide
+theorem C20_gen_clm_offset_limit : Gen.Constants.clm_offsetLimit_scraped = true → Gen.Constants.clm_offsetLimit = Clm.offsetLimit := by decide
+theorem C20_gen_clm_name_max : Gen.Constants.clm_nameMax_scraped = true → Gen.Constants.clm_nameMax = Clm.nameMax := by decide
 
 end Op2.Props.C20_Clm
